@@ -1,5 +1,123 @@
-"""C10 - Framebuffer reads back what was written, in the layout of ImageRaw  (metadata; generators live here and/or in props/C10_*.py parts)"""
-CLAIMED = False   # set True by the owner once ./check C10 passes with real theorems
+"""C10 - Framebuffer reads back what was written, in the layout of ImageRaw."""
+from common import *
+
+CLAIMED = True
 LEVEL = 'proof'
-LEVEL_TEXT = 'TODO'
-LEVEL_NOTE = 'TODO'
+LEVEL_TEXT = ('Proof: Coq theorems (coq/Properties/C10.v) over the Gallina model of Framebuffer (coq/Model/Framebuffer.v: set_pixel in its '
+              'three families as written - sub-byte byte/bit index and mask expression, 8-bit, multi-byte to_le/to_be_bytes by data order - '
+              'draw_iter, new, as_image over data[0..BUFFER_SIZE] with ImageRaw::new / data_width / pixel reading through RawDataIterator::nth '
+              'of the C11 model), for all 7 raw widths, both data orders, ALL sizes and all buffer lengths N >= BUFFER_SIZE: a new framebuffer '
+              'reads the zero colour inside and None outside; set_pixel is exactly RawData::store and pixel() exactly RawData::load at index '
+              'x + y * data_width (ImageRaw\'s padded row-major layout), hence set_pixel updates the point->colour map at p iff p is inside '
+              'and nothing else (refinement); by induction over ANY list of set_pixel / draw_iter operations pixel(q) is the colour most recently '
+              'written to q; a write outside WIDTH x HEIGHT returns the identical byte array; bytes at or beyond BUFFER_SIZE are never '
+              'modified (single step and histories); as_image() never panics and is the ImageRaw of the same raw type, data order and size '
+              'over the used prefix; pixel() never panics; drawing as_image() (ImageDrawable::draw with ContiguousPixels modelled as written: '
+              'next / nth(row_skip) on the raw iterator) hands fill_contiguous exactly WIDTH*HEIGHT colours, colour y*WIDTH+x being pixel (x,y). The layout itself (closed forms over the bytes) is C11\'s theorems about load.')
+LEVEL_NOTE = ('Trusted: Coq kernel, extraction, the OCaml/Rust drivers; the hand-written model is validated by differential testing on every '
+              'run. fill_solid / fill_contiguous / clear / drawables reach the framebuffer only through the DrawTarget trait defaults and '
+              'draw_iter (C03 / C01 own those); they are exercised here by the search suite against a reference map, and in the '
+              'correspondence by expanding fill_solid/clear into their point lists in the model driver. "Drawing as_image() reproduces the '
+              'content" is proved up to the colour stream and area handed to fill_contiguous (what a target does with it is C03; Image offset C09) '
+              'and checked end-to-end on two targets by p_fb_hist.')
+RULE = ('correspondence (fb_hist): all bytes of data() and pixel() over the window -1..=W x -1..=H after a history of set_pixel / draw_iter / '
+        'fill_solid / clear operations (points inside, on and beyond every edge, i32 extremes) on a zero or patterned (data_mut) background, for '
+        '7 raw widths x 2 data orders x 13 (W,H,extra) configurations (rows ending and not ending on a byte boundary, oversized buffers, zero '
+        'width / height) incl. every single pixel set alone; (fb_img): the colour stream as_image() hands to fill_contiguous. '
+        'search (implementation only): p_fb_hist = random histories incl. fill_contiguous and styled Rectangle/Circle/Line/Triangle drawables; '
+        'after EVERY operation pixel(), as_image().pixel() and an ImageRaw built over data[..BUFFER_SIZE] are compared with a reference map on a '
+        'window, the bytes with an independent bit-by-bit rendering of the documented layout, the oversized tail with its marker pattern; outside '
+        'writes must leave all bytes identical; finally as_image() is drawn at an offset onto a draining native target and a draw_iter-only target. '
+        'p_fb_each = every pixel written alone over set_pixel-written and raw random backgrounds: reads back, no other pixel changes, no bit '
+        'outside the pixel\'s bits in the documented layout changes (padding bits and tail included).')
+EXHAUSTIVE = {'quick': False, 'thorough': False}
+TRUSTED = ['modelled, not verified: colours are identified with their raw values (C::from(raw) / c.into() are property C12); const-generic '
+           'WIDTH/HEIGHT/N as ordinary values; usize::try_from(i32) as a sign test; slice indexing / copy_from_slice as list operations']
+ASSUMPTIONS = ['0 <= WIDTH, HEIGHT <= i32::MAX (the `as u32` / `as i32` casts in as_image()/pixel() are exact), N >= BUFFER_SIZE (CHECK_N), '
+               '8 * N <= usize::MAX, colours are raw values < 2^bits; fb_oob_noop needs no assumption']
+PARTIAL = []
+# Mutations tried (scratch worktree, EG_REPO=...), all VIOLATION with a failing input unless noted:
+#   framebuffer.rs: sub-byte bit index ignoring the data order (= original defect c); bytes_per_row (+6)/8; x <= WIDTH bound (sub-byte);
+#   y bound dropped (8 bit); mask not clearing old bits; BigEndianLsb0 impl using to_le_bytes; 8-bit index x*HEIGHT+y;
+#   multi-byte index y*W*BYTES + x; as_image over the whole oversized array
+#   image_raw.rs: data_width without row padding; pixel() x bound off by one
+#   NOT caught, not observable here: ContiguousPixels remaining_y = height (original defect d): when the WHOLE image is drawn the raw
+#   iterator is exhausted after the last row, so no surplus colour appears (the defect needs a sub-image; it is C09's).
+
+BPPS = [1, 2, 4, 8, 16, 24, 32]
+# (W, H, extra bytes): the framebuffer types instantiated in harness/src/suites/c10.rs (const generics):
+# rows that end on a byte boundary for some depths and not for others, oversized buffers, zero-sized
+SIZES = [(1, 1, 0), (3, 2, 0), (3, 2, 3), (7, 3, 0), (8, 2, 0), (9, 2, 0), (9, 2, 5), (13, 5, 0), (13, 5, 1),
+         (16, 1, 0), (17, 3, 0), (0, 2, 0), (3, 0, 2)]
+
+
+def coord(rng, m):
+    k = rng.random()
+    if k < 0.08:
+        return -1
+    if k < 0.16:
+        return m
+    if k < 0.24:
+        return m - 1
+    if k < 0.30:
+        return 0
+    if k < 0.36:
+        return rng.choice([-2 ** 31, 2 ** 31 - 1, -70000, 70000, 256, -256, 2 ** 16, 2 ** 24 + 3])
+    return rng.randrange(0, m + 1)
+
+
+def value(rng, bpp):
+    m = 2 ** bpp - 1
+    k = rng.random()
+    if k < 0.15:
+        return 0
+    if k < 0.3:
+        return m
+    if k < 0.4:
+        return 0x12345678 & m
+    return rng.randrange(m + 1)
+
+
+def op(rng, bpp, w, h):
+    k = rng.random()
+    if k < 0.55:
+        return 'S:%d:%d:%d' % (coord(rng, w), coord(rng, h), value(rng, bpp))
+    if k < 0.8:
+        n = rng.randrange(0, 6)
+        return 'D:' + ';'.join('%d:%d:%d' % (coord(rng, w), coord(rng, h), value(rng, bpp)) for _ in range(n))
+    if k < 0.95:
+        return 'F:%d:%d:%d:%d:%d' % (rng.randrange(-3, w + 2), rng.randrange(-3, h + 2), rng.randrange(0, w + 3), rng.randrange(0, h + 3), value(rng, bpp))
+    return 'C:%d' % value(rng, bpp)
+
+
+def bg(rng):
+    return rng.choice([(0, 0), (0, 0), (0, 255), (1, 0), (37, 11), (rng.randrange(256), rng.randrange(256))])
+
+
+def cases(tier, rng):
+    reps = 3 if tier == 'quick' else 20
+    for bpp in BPPS:
+        for alt in (0, 1):
+            for (w, h, e) in SIZES:
+                # every pixel set alone on a zero and on a patterned background
+                for (a, b) in ((0, 0), (37, 11)):
+                    yield J('fb_img', bpp, alt, w, h, e, a, b)
+                    for y in range(h):
+                        for x in range(w):
+                            if tier != 'quick' or (x + y * w) % 3 == 0 or x == w - 1:
+                                yield J('fb_hist', bpp, alt, w, h, e, a, b, 'S:%d:%d:%d' % (x, y, value(rng, bpp)))
+                for _ in range(reps):
+                    a, b = bg(rng)
+                    yield J('fb_hist', bpp, alt, w, h, e, a, b, *[op(rng, bpp, w, h) for _ in range(rng.randrange(0, 12))])
+                    a, b = bg(rng)
+                    yield J('fb_img', bpp, alt, w, h, e, a, b)
+
+
+def search(tier, rng):
+    reps = 2 if tier == 'quick' else 12
+    for bpp in BPPS:
+        for alt in (0, 1):
+            for (w, h, e) in SIZES:
+                yield J('p_fb_each', bpp, alt, w, h, e, rng.randrange(2 ** 32))
+                for r in range(reps):
+                    yield J('p_fb_hist', bpp, alt, w, h, e, rng.randrange(2 ** 32), 12 if tier == 'quick' else 30, r % 2)
